@@ -11,7 +11,8 @@
 EXTENDS DltCodec, DltFilter, TLC, Json
 CONSTANTS Levels, Emit
 IdA == <<65>>  IdB == <<66>>  IdC == <<67>>  IdE == <<69>>  IdF == <<70>>
-Lists(x, y) == {None, Some(<<>>), Some(<<x>>), Some(<<x, y>>), Some(<<x, x>>)}
+LongId == <<68, 73, 65, 71, 78, 79, 83, 73, 83>>      \* an id no message can carry (9 bytes); it still counts as a member of the set
+Lists(x, y) == {None, Some(<<>>), Some(<<x>>), Some(<<x, y>>), Some(<<x, x>>), Some(<<x, LongId>>)}
 CfgLvl == {[min |-> m, app |-> a, ctx |-> None, ecu |-> None, appc |-> 0, ctxc |-> 0] : m \in {None} \cup {Some(n) : n \in Levels}, a \in {None, Some(<<IdA>>)}}
 CfgIds == {[min |-> m, app |-> a, ctx |-> c, ecu |-> e, appc |-> ac, ctxc |-> cc] :
              m \in {None, Some(3)}, a \in Lists(IdA, IdB), c \in {None, Some(<<>>), Some(<<IdC>>)}, e \in {None, Some(<<>>), Some(<<IdE>>)}, ac \in 0..3, cc \in 0..2}
